@@ -592,7 +592,9 @@ type List struct {
 func (o *List) SetCtx(Ctx ExprContext) {
 	o.Ctx = Ctx
 	for i := range o.Elts {
-		o.Elts[i].(SetCtxer).SetCtx(Ctx)
+		if setCtx, ok := o.Elts[i].(SetCtxer); ok {
+			setCtx.SetCtx(Ctx)
+		}
 	}
 }
 
@@ -607,7 +609,9 @@ type Tuple struct {
 func (o *Tuple) SetCtx(Ctx ExprContext) {
 	o.Ctx = Ctx
 	for i := range o.Elts {
-		o.Elts[i].(SetCtxer).SetCtx(Ctx)
+		if setCtx, ok := o.Elts[i].(SetCtxer); ok {
+			setCtx.SetCtx(Ctx)
+		}
 	}
 }
 
